@@ -227,6 +227,18 @@ def jac(cf, cv, P, z, order=None, generator=False):
     return E.PointJacobi(cf, x * z * z % p, y * z * z * z % p, z, order, generator)
 
 
+def forms(cf, cv, P, n):
+    """library objects representing P in several projective scalings; for infinity (P is None): the INFINITY singleton and
+    Jacobian points with y = 0 (the library's encoding of infinity), also as results of a negation"""
+    if P is not None:
+        return [(z, jac(cf, cv, P, z, n)) for z in Z_SCALINGS(cv.p)]
+    j1 = E.PointJacobi(cf, 0, 0, 1, n)
+    j2 = E.PointJacobi(cf, 3, 0, 2, n)
+    j3 = E.PointJacobi(cf, 5, 0, 0, n)
+    return [(1, E.INFINITY), ("J(0,0,1)", j1), ("J(3,0,2)", j2), ("J(5,0,0)", j3), ("-J(0,0,1)", -E.PointJacobi(cf, 0, 0, 1, n)),
+            ("-J(3,0,2)", -E.PointJacobi(cf, 3, 0, 2, n))]
+
+
 def aff(R):
     """affine tuple (reduced modulo p) of a library point, or None for infinity"""
     if R is E.INFINITY or R == E.INFINITY:
@@ -252,15 +264,10 @@ def run_case(ctx, case):
         ops = 0
         name = "p=%d a=%d b=%d n=%d" % (cv.p, cv.a, cv.b, n)
         if kind == "add":
-            for z1 in Z_SCALINGS(cv.p):
-                if P is None and z1 != 1:
-                    continue
+            for i1, (z1, A0) in enumerate(forms(cf, cv, P, n)):
                 for Q in allpts:
-                    for z2 in Z_SCALINGS(cv.p):
-                        if Q is None and z2 != 1:
-                            continue
-                        A = jac(cf, cv, P, z1, n)
-                        Bq = jac(cf, cv, Q, z2, n)
+                    for z2, Bq in forms(cf, cv, Q, n):
+                        A = forms(cf, cv, P, n)[i1][1]    # fresh object per pair (operations may rescale their operands in place)
                         exp = cv.add(P, Q)
                         ops += 1
                         got = aff(A + Bq)
@@ -268,10 +275,22 @@ def run_case(ctx, case):
                             o.cls = "differs"
                             shape = "equal" if P == Q else "inverse" if P is not None and Q == cv.neg(P) else "infinity" if None in (P, Q) else "generic"
                             return o.viol("jacobi|add|%s|z%s" % (shape, "eq" if z1 == z2 else "1" if 1 in (z1, z2) else "ne"),
-                                          "%s: %r(Z=%d) + %r(Z=%d) = %r, group law gives %r" % (name, P, z1, Q, z2, got, exp))
-                        # equality across scalings
-                        if (A == Bq) != (P == Q):
-                            return o.viol("jacobi|eq", "%s: %r(Z=%d) == %r(Z=%d) is %r" % (name, P, z1, Q, z2, A == Bq))
+                                          "%s: %r(Z=%s) + %r(Z=%s) = %r, group law gives %r" % (name, P, z1, Q, z2, got, exp))
+                        # equality across scalings (two Jacobian encodings of infinity are only compared with the INFINITY object)
+                        if not (P is None and Q is None and 1 not in (z1, z2)) and not (A is E.INFINITY and Bq is not E.INFINITY):
+                            if (A == Bq) != (P == Q):
+                                return o.viol("jacobi|eq", "%s: %r(Z=%s) == %r(Z=%s) is %r" % (name, P, z1, Q, z2, A == Bq))
+                if P is None and A0 is not E.INFINITY:
+                    # a Jacobian encoding of infinity behaves as the neutral element under every operation
+                    ops += 4
+                    if aff(-A0) is not None or aff(A0.double()) is not None:
+                        return o.viol("jacobi|infinity-form|neg-double", "%s: negation / doubling of infinity in the form %s is not infinity" % (name, z1))
+                    for k in (0, 1, 2, n - 1, n + 1):
+                        if aff(A0 * k) is not None:
+                            return o.viol("jacobi|infinity-form|mul", "%s: %d * infinity in the form %s is not infinity" % (name, k, z1))
+                    G1 = jac(cf, cv, pts[0], 2, n)
+                    if aff(G1.mul_add(3, A0, 5)) != cv.mul(3, pts[0]) or aff(A0.mul_add(5, G1, 3)) != cv.mul(3, pts[0]):
+                        return o.viol("jacobi|infinity-form|mul_add", "%s: mul_add with infinity in the form %s wrong" % (name, z1))
                 if P is not None:
                     A = jac(cf, cv, P, z1, n)
                     ops += 2
